@@ -348,7 +348,7 @@ class ProgramSet(NamedItem):
         if pop_type is None:
             pop_type = self._pop_types[0]
 
-        self.comps[code_name] = {"label": full_name, "type": pop_type}
+        self.comps[code_name] = {"label": full_name, "type": pop_type, "non_targetable": False}
 
     def remove_comp(self, name: str) -> None:
         """
